@@ -129,6 +129,18 @@ def bgd_random(rng, n):
         use = rng.random() < 0.4
         val = rng.choice(["none", "none", "all"])
         cases.append({"id": "bgd-r%05d" % i, "family": "bgd-random-" + mode, "S": bgd_shader(decls, use=use, tys=tys), "opts": opts(validate=val)})
+    # large groups: 17 to 40 variables in one group, all distinct or with a LATE variable repeating the binding of an early one
+    for j, n_vars in enumerate([16, 17, 18, 24, 33, 40]):
+        base = list(range(n_vars))
+        rng.shuffle(base)
+        for rep_at, rep_of in ((None, None), (n_vars - 1, 0), (n_vars - 1, min(15, n_vars - 2)), (min(16, n_vars - 1), 3), (n_vars // 2, n_vars // 2 - 1)):
+            bs = list(base)
+            if rep_at is not None:
+                bs[rep_at] = bs[rep_of]
+            decls = [{"g": 0, "b": b} for b in bs] + [{"g": 1, "b": 0}]
+            for val in ("none", "all"):
+                cases.append({"id": "bgd-large-%02d-%s-%s" % (n_vars, "ok" if rep_at is None else "dup%dof%d" % (rep_at, rep_of), val), "family": "bgd-large-groups",
+                              "S": bgd_shader(decls, use=False), "opts": opts(validate=val)})
     # many groups: two-digit group numbers (orders by text instead of by number), dense and with one group missing
     for j, n_groups in enumerate([9, 10, 11, 12, 16, 23, 32]):
         for miss in (None, 1, n_groups - 2):
@@ -455,6 +467,26 @@ def deep_use_cases(push):
                 S["functions"][-1]["body"] = [{"k": "access", "g": "buf", "how": "load"}]
             out.append({"id": "deep-%s-d%d-%s" % ("push" if push else "res", d, "ret" if ret else "void"), "family": "deep-call-chain", "S": S, "opts": opts()})
     return out
+
+
+def wear_history(walks=65536, entries=255, probes=520):
+    """a long-lived thread: one module with many entry points generated again and again until just under `walks` entry-point walks have
+    happened on the thread, then `probes` small shaders (entry -> helper -> binding) so that the walk with that number - and every counter
+    that wraps there - falls on a judged call"""
+    W = _base()
+    W["functions"].append({"name": "touch", "ret": True, "body": [{"k": "access", "g": "buf", "how": "load"}]})
+    for i in range(entries):
+        W["entries"].append({"name": "c%d" % i, "stage": "compute", "params": [], "wg": ["1"], "body": [{"k": "call", "f": "touch", "expr": True}] if i % 2 else [{"k": "access", "g": "buf", "how": "load"}]})
+    calls = max(1, (walks - probes // 2) // entries)
+    cases = [{"id": "wear-module", "family": "long-lived-thread", "S": W, "opts": opts(), "repeat": calls - 1}]
+    for i in range(probes):
+        P = _base()
+        P["globals"].append({"name": "other", "space": "uniform", "group": "0", "binding": "1", "ty": VEC4})
+        P["functions"].append({"name": "leaf", "ret": True, "body": [{"k": "access", "g": "buf", "how": "load"}]})
+        P["functions"].append({"name": "mid", "ret": True, "body": [{"k": "call", "f": "leaf", "expr": True}]})
+        P["entries"].append({"name": "fs_main", "stage": "fragment", "params": [], "wg": [], "body": [{"k": "call", "f": ("mid", "leaf")[i % 2], "expr": True}]})
+        cases.append({"id": "wear-probe-%03d" % i, "family": "long-lived-thread", "S": P, "opts": opts()})
+    return cases
 
 
 def if_split_shader(ret_a, ret_b):
@@ -1402,6 +1434,13 @@ def const_table(rng):
             lit += ".0"
         add("f32", lit, "f32:" + f32_bits(vv))
         add(None, lit + "f", "f32:" + f32_bits(vv))
+    # unsuffixed decimals within half an f64 ulp above / below an f32 rounding midpoint, written with 17 digits: the WGSL value is the
+    # literal rounded to f64 first and to f32 second (re-reading the source text with a direct decimal -> f32 conversion differs by one ulp)
+    for mid in ("1.0000000596046448", "1.0000000596046447", "1.0000001788139344", "0.10000000521540642", "16777217.000000002", "3.0000001192092896", "1.0000000596046449e10", "5.9604644775390626e-8"):
+        v64 = float(mid)
+        v32 = struct.unpack("<f", struct.pack("<f", v64))[0]
+        add(None, mid, "f32:" + f32_bits(v32))
+        add("f32", mid, "f32:" + f32_bits(v32))
     add("f32", "-0.0", "f32:80000000")
     add(None, "-0.0f", "f32:80000000")
     add("f32", "1", "f32:" + f32_bits(1.0))               # abstract int converted to the declared type
@@ -1517,6 +1556,18 @@ def override_shaders(rng, n):
                 if oid is not None:
                     o["id"] = oid
                 out.append([o])
+    # very many overrides: 32, 33, 40 and 70 required ones (map built in chunks), mixed with optional ones, some with ids
+    for n_req in (32, 33, 40, 70):
+        ovs = []
+        for j in range(n_req):
+            ty = tys[j % len(tys)]
+            o = {"name": "req%d" % j, "ty": ty}
+            if j % 7 == 3:
+                o["id"] = 100 + j
+            ovs.append(o)
+            if j % 11 == 5:
+                ovs.append({"name": "opt%d" % j, "ty": ty, "default": defaults[ty][0]})
+        out.append(ovs)
     while len(out) < n:
         k = rng.randint(2, 5)
         ovs = []
